@@ -299,6 +299,19 @@ def new_interp(t):
             return Slice((), "slice")
         return orig_cast(a, ty, kind)
     it.cast = cast
+    orig_switch = it.do_switch
+
+    def do_switch(ctx, v, arms, otherwise):
+        # fast path for a concrete integer scrutinee (opcode bytes, discriminants of concrete enum values): the
+        # 70-arm matches of the reader/writer would otherwise build and simplify one z3 equality per arm
+        if isinstance(v, Int) and z3.is_bv_value(v.t):
+            c, mask = v.t.as_long(), (1 << v.w) - 1
+            for i, (val, b) in enumerate(arms):
+                if (otherwise is None and i == len(arms) - 1) or (val & mask) == c:
+                    return b
+            return otherwise
+        return orig_switch(ctx, v, arms, otherwise)
+    it.do_switch = do_switch
     return it
 
 
@@ -852,11 +865,11 @@ def make_harnesses(t, tier):
             sc += [("bind", 0)] + tail
             H["seq/%s/filler=%d" % (name, nf)] = ("seq-forward", sc, {"tail": 7})
         # large concrete filler: the distance needs 2 (3 in thorough) bytes of the fixed 32-bit offset field
-        for dist in ([300, 70000] if thorough else [300]):
-            sc = [("label", 0)] + em(emit_op(t.specs[name], "j"))
+        for dist in ([300, 66000] if thorough else [300]):
+            sc = [("label", 0)] + em(emit_op(t.specs[name], "j")) + em(emit_op(fill, "f"))
             for _ in range(dist // 6):
                 sc += big()
-            sc += em(emit_op(fill, "f")) + [("bind", 0)] + tail
+            sc += [("bind", 0)] + tail
             fx = {"big": BIG, "tail": 7}
             if dist > 1000:
                 # the long run only has to reach the third byte of the offset field: jump operands concrete as well
@@ -874,12 +887,12 @@ def make_harnesses(t, tier):
         for dist in ([128, 16384] if thorough else [128]):
             nfill = (dist - 4) // 6
             pad = dist - 4 - 6 * nfill
-            sc = [("define", 0)]
+            sc = [("define", 0)] + em(emit_op(fill, "f"))
             for _ in range(nfill):
                 sc += big()
             if pad >= 2:
                 sc += em(("emit", fill["name"], [("reg", "pad")]))
-            sc += em(emit_op(fill, "f")) + em(emit_op(t.specs[name], "j")) + tail
+            sc += em(emit_op(t.specs[name], "j")) + tail
             padv = {2: 0, 3: 128, 4: 16384, 5: 1 << 21}.get(pad, 0)
             H["seq/%s/wide=%d" % (name, dist)] = ("seq-loop-wide", sc, {"big": BIG, "pad": padv, "tail": 7})
     # switch + jump table resolved into the constant pool by generate()
@@ -1336,7 +1349,7 @@ def main2(tier):
                    "argument_lists": "0..3 symbolic registers" if tier == "thorough" else "2 symbolic registers (0..3 in the thorough tier)",
                    "constant_pool_prefill": "0 / 127 / 128 entries before a constant emitter" + (" (+16383/16384 for one emitter)" if tier == "thorough" else ""),
                    "sequences": "forward jumps over 1..%d symbolic one-register instructions + a concrete far filler (offset >= 300%s); JumpLoop over 0..%d symbolic fillers and at distance 128%s; switch with a 2-entry jump table"
-                                % (3 if tier == "thorough" else 2, ", 70000" if tier == "thorough" else "", 3 if tier == "thorough" else 2, " and 16384" if tier == "thorough" else ""),
+                                % (3 if tier == "thorough" else 2, ", 66000" if tier == "thorough" else "", 3 if tier == "thorough" else 2, " and 16384" if tier == "thorough" else ""),
                    "wide_forms": "this tree has no Wide prefix: operands are LEB128 per operand, forward offsets a fixed 32-bit field, JumpLoop distance LEB128"},
         "paths": paths, "queries": queries, "assertion_queries": checks, "solver_time_s": round(stime, 2), "per_harness": per,
         "vacuity_witnesses": vac_summary + ["%d (emitter, operand, width class) triples reachable" % nclass],
